@@ -375,7 +375,7 @@ func c19OracleSeekReadAt(r *Rng, rep *Report) {
 		}
 	}
 	for _, b := range c19OBackends {
-		if b.variant == "dataerr" || b.variant == "zeroreads" {
+		if b.variant == "zeroreads" {
 			continue
 		}
 		lab := b.label()
